@@ -293,6 +293,52 @@ def execute_order(program, ctx, mode):
                 self.__name__ = name
             if module is not None:
                 self.__module__ = module
+    class SlotFwd:
+        """no instance dictionary, no `__name__` on the type: name and module are answered by an attribute hook (the layout of a
+        transparent proxy or of a small lazy reference); leaves every comparison to the other operand"""
+        __slots__ = ('_n', '_m')
+
+        def __init__(self, name, module):
+            object.__setattr__(self, '_n', name)
+            object.__setattr__(self, '_m', module)
+
+        def __getattribute__(self, name):
+            if name == '__name__':
+                return object.__getattribute__(self, '_n')
+            if name == '__module__':
+                return object.__getattribute__(self, '_m')
+            return object.__getattribute__(self, name)
+
+    class SlotProxy:
+        """the same layout, every attribute and every comparison forwarded to the wrapped object"""
+        __slots__ = ('_w',)
+
+        def __init__(self, w):
+            object.__setattr__(self, '_w', w)
+
+        def __getattribute__(self, name):
+            return getattr(object.__getattribute__(self, '_w'), name)
+
+        def __eq__(self, other):
+            return object.__getattribute__(self, '_w') == other
+
+        def __ne__(self, other):
+            return object.__getattribute__(self, '_w') != other
+
+        def __lt__(self, other):
+            return object.__getattribute__(self, '_w') < other
+
+        def __le__(self, other):
+            return object.__getattribute__(self, '_w') <= other
+
+        def __gt__(self, other):
+            return object.__getattribute__(self, '_w') > other
+
+        def __ge__(self, other):
+            return object.__getattribute__(self, '_w') >= other
+
+        def __hash__(self):
+            return hash(object.__getattribute__(self, '_w'))
     ops = [('==', lambda a, b: a == b), ('!=', lambda a, b: a != b), ('<', lambda a, b: a < b), ('<=', lambda a, b: a <= b),
            ('>', lambda a, b: a > b), ('>=', lambda a, b: a >= b)]
 
@@ -342,7 +388,8 @@ def execute_order(program, ctx, mode):
             ctx.violation('C12', 'none', 'C12|None|%s' % kinds[i], {'a': keys[i], 'got': r})
         hash(s)
     # foreign operands: logged for the cross-implementation / cross-process comparison
-    foreign = [Foreign(), Foreign('I', 'm'), Foreign('I'), object(), 3, 'I', Foreign(keys[0][0], keys[0][1])]
+    foreign = [Foreign(), Foreign('I', 'm'), Foreign('I'), object(), 3, 'I', Foreign(keys[0][0], keys[0][1]),
+               SlotFwd('I', 'm'), SlotFwd(keys[0][0], keys[0][1]), SlotFwd(keys[-1][0], keys[-1][1]), SlotProxy(specs[0]), SlotProxy(specs[-1])]
     if any(k[0] is None for k in keys):
         # a nameless interface against an operand with a string name compares None with str: the known error-path
         # divergence F11d (C: False, Python: TypeError); only operands without a name are used there
@@ -356,8 +403,61 @@ def execute_order(program, ctx, mode):
                         row.append(fn(a, b))
                     except BaseException as e:   # noqa
                         row.append('raise:' + type(e).__name__)
+            if isinstance(f, (SlotFwd, SlotProxy)):
+                # the rich-comparison methods called directly (no reflection to the rescue)
+                for meth in ('__eq__', '__ne__', '__lt__', '__le__', '__gt__', '__ge__'):
+                    try:
+                        r_ = getattr(s, meth)(f)
+                        row.append('NotImplemented' if r_ is NotImplemented else r_)
+                    except BaseException as e:   # noqa
+                        row.append('raise:' + type(e).__name__)
         matrix.append(row)
     ctx.log('matrix', h64(repr(matrix)))
+    # fault `address-reuse`: a long-lived interface is compared with the specification of a class; the class is dropped and
+    # collected; the specification of another class (a name on the other side of the interface's) takes its address, if the
+    # allocator plays along; the interface's next comparisons are with that one.  Judged against the keys.
+    import gc as _gc
+    churn_log = []
+    for i in [i_ for i_ in range(n) if kinds[i_] == 'I' and keys[i_][0] is not None][:2]:
+        I = specs[i]
+
+        def check_pair(s, when):
+            ks = (s.__name__, s.__module__)
+            for opn, f in ops:
+                for a, b, ka, kb in ((I, s, keys[i], ks), (s, I, ks, keys[i])):
+                    try:
+                        got = f(a, b)
+                    except BaseException as e:   # noqa
+                        got = 'raise:' + type(e).__name__
+                    want = {'==': ka == kb, '!=': ka != kb, '<': ka < kb, '<=': ka <= kb, '>': ka > kb, '>=': ka >= kb}[opn]
+                    churn_log.append(got)
+                    if got is not want:
+                        ctx.violation('C12', 'comparison-after-churn', 'C12|%s|I-vs-K|%s' % (opn, when), {'a': ka, 'b': kb, 'got': got, 'want': want})
+        A = type('a', (), {'__module__': '\x01'})
+        sa = implementedBy(A)
+        check_pair(sa, 'first-class')
+        addr = id(sa)
+        del sa, A
+        _gc.collect()
+        ctx.fault('drop')
+        ctx.fault('gc')
+        misses = []
+        for _ in range(40):
+            Bc = type('z', (), {'__module__': '\U0010ffff'})
+            sb = implementedBy(Bc)
+            if id(sb) == addr:
+                ctx.fault('address-reuse')
+                break
+            misses.append((Bc, sb))
+        check_pair(sb, 'class-specification-at-the-address-of-a-collected-one')
+        try:
+            srt = sorted([sb, I, sb, I])
+            if [(x.__name__, x.__module__) for x in srt] != sorted([(x.__name__, x.__module__) for x in srt]):
+                ctx.violation('C12', 'sort', 'C12|sorted|not-in-key-order|after-churn', {})
+        except BaseException as e:    # noqa
+            ctx.violation('C12', 'sort', 'C12|sorted|raises-%s' % type(e).__name__, {})
+        del misses, sb, Bc
+    ctx.log('churn', h64(repr(churn_log)))
     # transitivity / totality on triples follow from agreement with the key model; sorting must be deterministic
     base = sorted(specs + [None], key=lambda x: 0) if False else None
     seqs = []
